@@ -311,7 +311,15 @@ def t1(ck: Check) -> None:
             probs.append("the transitions to delete are not computed as one collection")
         else:
             el, cnd = col[0]
-            if el != want_el or not logic.equivalent(cnd, want_c) or logic.atoms(se.cond(cn, local=True)):
+            # "does not give the token back" also as an edge test: has_edge(t, place) says that t is a predecessor of the place
+            NET = se.val(c_.func.value, cn)
+            alt_c = logic.Not(logic.B(f"T:{NET}.has_edge({want_el},{SP})"))
+            same_c = False
+            try:
+                same_c = logic.equivalent(cnd, want_c) or logic.equivalent(cnd, alt_c)
+            except logic.TooBig:
+                pass
+            if el != want_el or not same_c or logic.atoms(se.cond(cn, local=True)):
                 probs.append(f"deleted transitions are `{el[:70]}` if `{logic.show(cnd)[:90]}`; expected consumers of the retained place "
                              f"that do not give the token back (successors of the place of the retained value minus its predecessors)")
     ck.ob("T1", rs, anchor, not probs, "; ".join(sorted(set(probs))) if probs else
@@ -830,7 +838,7 @@ def t6(ck: Check) -> None:
             if isinstance(a, ast.Name):
                 for x in own_walk(f.node):
                     if isinstance(x, ast.Call) and isinstance(x.func, ast.Attribute) and text(x.func.value) == a.id \
-                            and x.func.attr in ("add_node", "add_edge", "remove_edge", "remove_nodes_from", "remove_edges_from", "clear",
+                            and x.func.attr in ("add_node", "add_edge", "remove_edge", "remove_edges_from", "clear",
                                                 "add_nodes_from", "add_edges_from", "update"):
                         probs.append(f"line {x.lineno}: `{text(x)[:50]}` edits the net that is encoded")
             ck.ob("T6", fm, f.stmt_of(c), not probs, "; ".join(probs) if probs else
